@@ -65,8 +65,8 @@ inline int pop_front_unichar(std::string_view& s) {
 }
 
 inline validation_result validate_mqtt_utf8_char(int c) {
-    constexpr int fe_flag = 0xFE;
-    constexpr int ff_flag = 0xFF;
+    constexpr int fe_flag = 0xFFFE;
+    constexpr int ff_flag = 0xFFFF;
 
     constexpr int multi_lvl_wildcard = '#';
     constexpr int single_lvl_wildcard = '+';
